@@ -753,11 +753,12 @@ struct SrvEngine : public Engine
          const std::string res = command(si, m);
          for (int j=0; j<NSLOTS; j++) if ((cl[j].attached)&&(!cl[j].blocked))
          {
-            int got = -before[j];
+            int got = -before[j], seen = 0;
             for (size_t k=0; k<cl[j].inbox.size(); k++) if ((cl[j].inbox[k].compare(0, 4, "MSG ") == 0)&&(cl[j].inbox[k].size() >= marker.size())&&(cl[j].inbox[k].compare(cl[j].inbox[k].size()-marker.size(), marker.size(), marker) == 0))
             {
                got++;
-               if (cl[j].inbox[k].find(" from=" + c.sid + " ") == std::string::npos) oracleFail("C05: delivered Message does not name the true sender " + c.sid + ": " + cl[j].inbox[k]);
+               // (only what THIS send added is this sender's: an earlier Message of another sender may carry the same tag)
+               if ((++seen > before[j])&&(cl[j].inbox[k].find(" from=" + c.sid + " ") == std::string::npos)) oracleFail("C05: delivered Message does not name the true sender " + c.sid + ": " + cl[j].inbox[k]);
             }
             if (got != want[j])
             {
